@@ -1238,6 +1238,14 @@ class Function(Ring):
     def triu(self):
         return Function.pushforward(algopy.triu, [self])
 
+    @classmethod
+    def maximum(cls, x, y):
+        return Function.pushforward(algopy.maximum, [x, y])
+
+    @classmethod
+    def minimum(cls, x, y):
+        return Function.pushforward(algopy.minimum, [x, y])
+
     def symvec(self, UPLO='F'):
         return Function.pushforward(algopy.symvec, [self, UPLO])
 
